@@ -695,6 +695,26 @@ def corpus(ctx):
     # the step that passed it, also the second and later checkpoints of that step (seeded change C04-s4)
     cfgd = sm.Config(fact="iso", solver="dynamic", strategy="filter", lin="ts0", q=2)
     value_adaptive(ctx, cfgd, 2, lin, [np.array([1.0, -0.5])], 0.0, np.linspace(0.0, 1.0, 17), 1e-2, clip=False)
+    # block-diagonal MLE, one component whose residual vanishes identically (a constant carried in the state): that dimension's
+    # scale is exactly 0, the other dimension's scale is the documented estimate (seeded change C04-s11: a zero-guard
+    # collapsed over all dimensions)
+    aug = problems.PolyField(2, 1, [[(Fraction(-1, 2), (1, 1, 0))], [(Fraction(0), (0, 1, 0))]])
+    cfga = sm.Config(fact="bd", solver="mle", strategy="filter", lin="ts0", q=2)
+    hs_a = [0.125, 0.25, 0.125, 0.25]
+    grid_a = np.concatenate([[0.0], np.cumsum(hs_a)])
+    sol2 = L.runner(cfga, aug).solve_grid([np.array([1.0, 0.75])], 0.0, grid_a, None)
+    # with TS0 the block of component 0 evolves exactly like the scalar problem y' = -(3/8) y (whose calibration is compared
+    # with the model in the fixed-grid part)
+    one = problems.PolyField(1, 1, [[(Fraction(-3, 8), (1, 0))]])
+    sol1 = L.runner(cfga, one).solve_grid([np.array([1.0])], 0.0, grid_a, None)
+    o2, o1 = np.asarray(sol2.output_scale, dtype=np.float64)[-1].reshape(-1), np.asarray(sol1.output_scale, dtype=np.float64)[-1].reshape(-1)
+    case_a = {"corpus": "constant component", "field": "y0' = -y0 y1 / 2, y1' = 0", "u0": [1.0, 0.75], "steps": hs_a, "scales": o2.tolist(), "scalar problem scale": o1.tolist()}
+    ctx.case(case_a)
+    dev_a = abs(o2[0] - o1[0]) / o1[0]
+    ctx.dev("mle.constant-component.scale", dev_a, 1e-10, case=case_a, sig="grid:bd:mle:constant-component:scale-of-the-other-dimension",
+            what=f"block-diagonal MLE scale of the non-constant component ({o2[0]!r}) differs from the scale of the equivalent scalar problem ({o1[0]!r})")
+    if o2[1] != 0.0:
+        ctx.violation("grid:bd:mle:constant-component:scale-not-zero", f"scale of a component with identically vanishing residual is {o2[1]!r}, expected exactly 0", case_a)
     # adaptive MLE runs with checkpoints strictly inside steps (interpolation must use unit-scale transitions; seeded
     # change C04-s1 was only seen by C03/C05): filter and fixed-point smoother, no clipping
     for fact, strat in (("iso", "filter"), ("dense", "fixedpoint")) if ctx.quick else (("iso", "filter"), ("dense", "fixedpoint"), ("bd", "fixedpoint"), ("dense", "filter")):
